@@ -31,6 +31,8 @@ def eval_case(case) -> Outcome:
     an = P.Analysis(case, out, "C09")
     if not an.ok:
         return out
+    if case.get("shape"):
+        out.labels.add(case["shape"])
     P.classify_site(out, an)
     P.root_causes(out, an)
     root_ok = False
@@ -168,11 +170,49 @@ def nested_site(draw, tier):
     return {"streams": ss, "utilities": us, "zone_tree": tree}
 
 
+@st.composite
+def double_pinch_site(draw, tier):
+    """One zone whose cascade is pinched at two temperatures with a positive bulge between them (a source exactly
+    balanced by a sink directly below it), next to an ordinary zone; ladders that mostly leave the bulge alone.  The
+    zone's own utility demand is then Qh / Qc although its grand composite curve rises between the pinches - what the
+    zones pass to the site utility system must not contain that bulge."""
+    dt = draw(st.sampled_from([0.0, 5.0, 10.0]))
+    top = float(draw(st.integers(150, 350)))
+    gaps = [float(draw(st.sampled_from([10.0, 20.0, 30.0, 50.0]))) for _ in range(4)]
+    T = [top]
+    for g in gaps:
+        T.append(T[-1] - g)
+    q0 = float(draw(st.sampled_from([50.0, 120.0, 400.0])))
+    h = float(draw(st.sampled_from([40.0, 80.0, 250.0])))
+    q3 = float(draw(st.sampled_from([30.0, 90.0, 400.0])))
+    hot = lambda nm, hi, lo, q: {"zone": "P1", "name": nm, "t_supply": round(hi + dt, 6), "t_target": round(lo + dt, 6), "heat_flow": q, "dt_cont": dt, "htc": 1.0}
+    cold = lambda nm, hi, lo, q: {"zone": "P1", "name": nm, "t_supply": round(lo - dt, 6), "t_target": round(hi - dt, 6), "heat_flow": q, "dt_cont": dt, "htc": 1.0}
+    ss = [cold("C0", T[0], T[1], q0), hot("H1", T[1], T[2], h), cold("C2", T[2], T[3], h), hot("H3", T[3], T[4], q3)]
+    if draw(st.booleans()):  # the bulge split over two parallel sources
+        ss[1]["heat_flow"] = h / 2
+        ss.append(hot("H1b", T[1], T[2], h / 2))
+    pal = sorted({round(t + d, 3) for t in T for d in (-15.0, 0.0, 15.0)})
+    for _ in range(draw(st.integers(1, 4))):
+        ss.append(draw(G.stream(pal, ["P2"], iso_share=0.05, thirds=False)))
+    us = draw(st.sampled_from(["none", "none", "outside", "ladder"]))
+    if us == "none":
+        utils = []
+    elif us == "outside":
+        utils = [
+            {"name": "HP", "type": "Hot", "t_supply": round(top + 60.0, 3), "t_target": round(top + 60.0, 3), "heat_flow": None, "dt_cont": 5.0, "htc": 1.0, "price": 40.0, "active": True},
+            {"name": "CW", "type": "Cold", "t_supply": round(T[-1] - 80.0, 3), "t_target": round(T[-1] - 70.0, 3), "heat_flow": None, "dt_cont": 5.0, "htc": 1.0, "price": 5.0, "active": True},
+        ]
+    else:
+        utils = draw(G.utilities(pal, 2, 2, 2, thirds=False))
+    return {"streams": draw(st.permutations(ss)), "utilities": utils, "shape": "double-pinch-zone"}
+
+
 def strategy(tier):
     mx = 8 if tier == "quick" else 12
     return st.one_of(
         source_sink_site(tier),
         nested_site(tier),
+        double_pinch_site(tier),
         G.problem(min_streams=3, max_streams=mx, shape="mixed", multi_zone=True, max_both=2),
         G.problem(min_streams=2, max_streams=mx, multi_zone=True, max_both=2, isothermal_utils=True),
         G.problem(min_streams=2, max_streams=mx, shape="mixed", max_both=2),
